@@ -3,6 +3,10 @@
 import json, subprocess, sys
 
 CHECKS = {
+ "C12": dict(cat="exploration", tech="scripted-server response enumeration with panic monitor and (value, error) inspection for every client entry point",
+   text="For 26 fluent builders, Client.Request, Client.Batch, the discovery exchange of Dial and Client.Signer, a scripted server answers with every combination of header batch count {0,1,2}, item count {0,1,2}, item operation {requested, other, unknown, absent}, status {Success, Failed, Pending, Undone, unknown}, reason {none, registered, unknown} and payload {absent, right, another operation's, opaque} (1443 shapes each, ~45k exchanges) plus 3k/200k random shapes with extensions; a call must return the requested operation's payload type or an error, never panic, and a failed item's error must carry the server's status, reason and message. The shape product is enumerated completely.",
+   note="Unknown status/reason numbers have no name to look for in the error text; only err != nil is required there.", ref="§2 C12"),
+
  "C07": dict(cat="fault_enumeration", tech="chunking reader with byte accounting, requested-size and TotalAlloc monitors; truncation at every offset; real server and client connections fed byte-wise",
    text="20k/800k message sequences (1-6 messages, sizes around the 512-byte initial buffer up to 1 MiB) under 1-byte, fixed 2..9, random, single-read and boundary-cut (exact / +-1) segmentations: the i-th Recv must return the i-th message and the transport must have handed out exactly the bytes of the messages returned so far; truncation at EVERY offset of messages <= 2 KB must yield an error; announced lengths around and far above the maximum must be rejected after <= 8 consumed bytes, <= 512 requested bytes and < 256 KiB allocated; final chunk delivered together with io.EOF; byte-wise delivery against a real kmipserver connection and a real kmipclient connection.",
    note="Truncation offsets and the announced-length ladder are enumerated completely for the listed sizes; sequences and random segmentations are sampled.", ref="§2 C07"),
